@@ -39,7 +39,8 @@ def env_for_repo():
     return env
 
 
-def run_cases(cases, lit="exact", want_text=False, timeout=120, jobs=None, disable_opt=False):
+def run_cases(cases, lit="exact", want_text=False, timeout=120, jobs=None, disable_opt=False,
+              script="worker.py", extra=None):
     """Compile all cases in parallel worker subprocesses; returns list of per-case results in
     input order."""
     jobs = jobs or NPROC
@@ -55,9 +56,11 @@ def run_cases(cases, lit="exact", want_text=False, timeout=120, jobs=None, disab
             inp = os.path.join(tmp, f"in{i}.pkl")
             outp = os.path.join(tmp, f"out{i}.pkl")
             with open(inp, "wb") as f:
-                pickle.dump({"cases": ch, "lit": lit, "want_text": want_text, "timeout": timeout,
-                             "disable_opt": disable_opt}, f)
-            p = subprocess.Popen([PY, os.path.join(HERE, "worker.py"), inp, outp],
+                job = {"cases": ch, "lit": lit, "want_text": want_text, "timeout": timeout,
+                       "disable_opt": disable_opt}
+                job.update(extra or {})
+                pickle.dump(job, f)
+            p = subprocess.Popen([PY, os.path.join(HERE, script), inp, outp],
                                  env=env_for_repo(), cwd=tmp, stdout=subprocess.PIPE,
                                  stderr=subprocess.PIPE, text=True)
             procs.append((p, outp, ch))
